@@ -28,7 +28,14 @@ def run(cx, chk):
     chk.rule("C06.R2", "which end: LRU-side operations and every eviction victim use (*tail).prev, MRU-side operations (*head).next")
     chk.rule("C06.R3", "resize shape: early return iff cap == self.cap; loop `len > cap` -> remove_lru + count; self.cap := cap; count returned")
     chk.rule("C06.R4", "put of a resident key never evicts")
+    chk.rule("C06.R5", "a clone has the recency order of the original: RawLRU::clone walks the source least-recent-first and re-inserts with put (engine of C16.R2)")
+    from . import c16
+    from .lib.report import Relabel
     for cfg, F in cx.cfgs():
+        fcl = [F.fns[i] for im in F.doc["impls"] if (im["trait"] or "").endswith("clone::Clone") and im["self_head"] == RAW for i in im["items"] if i in F.fns and F.fns[i]["name"] == "clone"]
+        if len(fcl) != 1:
+            raise AnalysisError("C06.R5: RawLRU::clone not found in %s" % cfg)
+        c16.rawlru_clone(cx, Relabel(chk, {"C16.R2": "C06.R5"}, keep=lambda key: any(x in key for x in ("|order", "|no-list-walk", "|put-target", "clone")) and "|cap" not in key and "|hasher" not in key and "|on_evict" not in key), cfg, F, fcl[0])
         use_ops(cx, chk, cfg, F)
         nonuse(cx, chk, cfg, F)
         ends(cx, chk, cfg, F)
